@@ -182,7 +182,12 @@ func prologue(f world.Fork, s Shape) *asm.P {
 	p := asm.New()
 	if s.RData && f >= world.Byzantium {
 		// CALL(gas=50000, CRet, 0, 0,0, 0,0) ; POP   (STATICCALL-safe: value 0)
-		p.Push(0).Push(0).Push(0).Push(0).Push(0).PushAddr(CRet).Push(50000).Op(asm.CALL, asm.POP)
+		if s.Static {
+			// inside a static frame the buffer is filled by a nested STATICCALL
+			p.Push(0).Push(0).Push(0).Push(0).PushAddr(CRet).Push(50000).Op(asm.STATICCALL, asm.POP)
+		} else {
+			p.Push(0).Push(0).Push(0).Push(0).Push(0).PushAddr(CRet).Push(50000).Op(asm.CALL, asm.POP)
+		}
 	}
 	for i := 0; i < s.MemWords; i++ {
 		h := Pattern
